@@ -11,6 +11,6 @@ def build(tier):
                      bound="line, column in 0..3 and message <= 3 code points (the listener formats them into its exception; formatting symbolic ints enumerates them)"))
     obs.append(e2obs.ob_fault_witnesses('C06', D))
     # C06.d an exception while processing a file leaves document(): nothing is written or printed for that file
-    for (sk, fix) in (('S2', dict(out_i=0)), ('S1', dict(out_i=0)), ('S3', dict(out_i=1))):
+    for (sk, fix) in ((('S2q' if quick else 'S2'), dict(out_i=0)), ('S1', dict(out_i=0)), ('S3', dict(out_i=1))):
         obs.append(trees.tree_ob('C06.d', sk, 'fail', dict(fix, sep2=False, ext_t=False, ext_m=False, has_prefix=False, excl_root=False, auto_ex=False), fixrev=True, fixexcl=quick, timeout=400 if quick else 1800))
     return dict(obligations=obs, explanation="x", assumptions=[])
